@@ -248,7 +248,11 @@ def op_c16(args):
             expr = "''.join(l + linesep for l in [%s])[:-len(linesep)]" % ", ".join(repr(l) for l in parts)
         else:
             expr = " + linesep + ".join(repr(l) for l in parts)
-        eff = eval(expr, {"linesep": os.linesep})
+        try:
+            eff = eval(expr, {"linesep": os.linesep})
+        except (RecursionError, MemoryError, SyntaxError):
+            # hundreds of lines joined with `+`: the expression itself is too deep to compile
+            raise Reject("-e expression not evaluable")
         argv = ["-e" + expr] if args.get("attached") else ["-e", expr]
     elif how == "m":
         _modcount[0] += 1
